@@ -1,5 +1,5 @@
 """Table from which tools/gen_manifest.py writes MANIFEST.json."""
-FIX_COMMITS = ["77a8511 (C20)", "5ffb491 (C06)", "c8070ac (C06)", "17c5c88 (C10)", "0f02627 (C12/C11)", "b090335 (C12)", "379af9d (C11)", "b049858 (C09/C19)"]
+FIX_COMMITS = ["77a8511 (C20)", "5ffb491 (C06)", "c8070ac (C06)", "17c5c88 (C10)", "0f02627 (C12/C11)", "b090335 (C12)", "379af9d (C11)", "b049858 (C09/C19)", "04ee588 (C07)", "f98e878 (C07)"]
 
 CHECKS = {
     "C20": {
@@ -94,6 +94,28 @@ CHECKS = {
                 "one stored sum per receive (R08g).",
         "note": "Not decided: Butterworth values, numerical equality under rotation, gains of custom antenna classes. Trusted: summary "
                 "tables of the two domains.",
+    },
+    "C03": {
+        "technique": "static analysis: abstract interpretation (degree and sign domains), path-state counting, clone comparison by polynomial normal form",
+        "text": "Over the propagate/attenuation/fresnel siblings of all four path classes: returned signals are linear in the input signal "
+                "(Signal and FunctionSignal) and in the polarization (R03a, degree domain, all inputs); each returned signal object gets "
+                "exactly one shift(self.tof) and one filter on every path, force_real=True where Fresnel factors enter (R03b, path-state "
+                "flow); the argument is never mutated (R03c); attenuation is exp(non-positive) or a product of such from ones, i.e. in "
+                "(0,1] given positive attenuation lengths (R03d, sign domain); the Fresnel expressions are one normal form per role, r_p is "
+                "r_s with indices exchanged, s/p coefficients pair with s/p signals (R03e); polarization basis = normalized cross products "
+                "(R03f: unit, mutually orthogonal, p perpendicular to the received direction by construction).",
+        "note": "Not decided: |Fresnel| <= 1, monotonicity in |f|, interpolation error, u_s0 perpendicular to the received direction, the energy "
+                "inequality. Assumes ice.attenuation_length > 0 (C16 R16g). Trusted: domain summary tables, normalize().",
+    },
+    "C07": {
+        "technique": "static analysis: abstract interpretation (degree domain for 1/R and energy scaling, affine domain for joint time shifts) + def-use rules",
+        "text": "Through the constructors, nested signal functions and ARZ.shower_signal (both arms): the trace is Hom(-1) in viewing_distance "
+                "(R07a) and Hom(+1) in the shower energy for ZHS and the ARZ on-cone arm (R07e); with times and t0 of translation weight 1 "
+                "the trace has weight 0 (R07c, joint shift invariance). Def-use: every load of viewing_angle is under abs() (R07b); the "
+                "`function` handed to FunctionSignal is a callable at all call sites and zero-energy arms return zeros(len(times)) (R07d); "
+                "RAC arms use complementary, consistent masks (R07f).",
+        "note": "Not decided: whole-sample shift equivariance (integer rounding), finiteness, peak position and fall-off, AVZ energy "
+                "proportionality. Trusted: domain summary tables.",
     },
 }
 
